@@ -6,19 +6,19 @@ ROOT = os.path.dirname(os.path.dirname(os.path.abspath(__file__)))
 
 CHECKS = {
  "C01": dict(technique="bounded exhaustive enumeration of input strings (fragment alphabet, length bound) + depth ladder, invariant: returns Ok/Err",
-   text="Every string of <= L fragments over an alphabet with one fragment per tokenizer class (incl. 2/3/4-byte characters) is fed to parse_expression, expr(), describe() and execute under catch_unwind in sharded worker processes (crash/hang bisected to the single input); 14 recursive shapes are run at sizes 2^1..2^17 in fresh processes on an 8 MiB stack. Complete within the bound, nothing sampled.",
+   text="Every string of <= L fragments over an alphabet with one fragment per tokenizer class (incl. 2/3/4-byte characters) and every sequence of <= 5 (6) tokens over 30 spellings (incl. an unterminated quote and a malformed number) is fed to parse_expression, expr(), describe() and execute under catch_unwind in sharded worker processes (crash/hang bisected to the single input); 14 recursive shapes are run at sizes 2^1..2^17 in fresh processes on an 8 MiB stack. Complete within the bound, nothing sampled.",
    note="Totality beyond L fragments / beyond the ladder is not decided; memory exhaustion out of scope; stack exhaustion at depth >= 2^14 is a recorded known finding.", design="§4 C01"),
  "C10": dict(technique="bounded exhaustive enumeration of input strings under 3 operator configurations, compared token-by-token with a reference lexer (model) + tiling invariants",
-   text="Every string of <= L fragments under three operator sets (built-ins, registered symbolic chains, registered word/non-identifier operators); the engine's token stream (tokenize hook) must satisfy the tiling invariants and equal the reference lexer's stream; every model trace is compared with the implementation.",
+   text="Every string of <= L fragments under three operator sets (built-ins, registered symbolic chains, registered word/non-identifier operators), also with the strings tokenised once BEFORE the operators are registered; the engine's token stream (tokenize hook) must satisfy the tiling invariants and equal the reference lexer's stream; every model trace is compared with the implementation.",
    note="Operator sets as listed in the evidence; non-prefix-closed symbolic operators are outside the documented rule; rust_decimal's text parser trusted for digit strings.", design="§4 C10"),
  "C02": dict(technique="bounded exhaustive enumeration of expression trees and token sequences, engine AST compared with a reference precedence-climbing parser (model)",
    text="Every AST with <= 2 (thorough 3) infix nodes over all 32 built-in infix operators in every shape, every AST with <= 3 operator nodes over 15 representative infix operators plus `not OP`, prefix, postfix, conditional, call, list, map and statement chains, printed by the model printer (minimal and full parentheses), and every token sequence of <= 5 (6) tokens the reference parser accepts: the engine must return exactly the model's AST. The model's operator table is the documented one.",
    note="Grouping decisions are pairwise, so 3 nested nodes cover every outer/middle/inner combination; larger expressions are not enumerated. The greedy reading of the optional ';' is assumed.", design="§4 C02"),
  "C05": dict(technique="bounded exhaustive enumeration of token sequences, fragment strings and single-edit corruptions, judged by a reference recogniser (model); reject-side agreement",
-   text="Every sequence of <= 5 (6) tokens over 28 spellings (space-separated and glued), <= 6 (7) over a 15-spelling delimiter/separator sub-alphabet, every string of <= 4 (5) fragments, and every single-token / single-character corruption of the valid program set: whatever the reference grammar rejects the engine must reject.",
+   text="Every sequence of <= 5 (6) tokens over 28 spellings (space-separated and glued), <= 6 (7) over a 15-spelling delimiter/separator sub-alphabet, every string of <= 4 (5) fragments, every single-token / single-character corruption of the valid program set, and every sequence of <= 5 tokens after a word operator of each kind has been registered (with and without the word having been parsed before): whatever the reference grammar rejects the engine must reject.",
    note="Inputs longer than the bound and corruptions of distance > 1 are not enumerated; the reference grammar is lenient exactly where the property is (optional ';', one trailing comma in list/map).", design="§4 C05"),
  "C11": dict(technique="bounded exhaustive enumeration of layouts (whitespace at every token boundary, redundant parentheses at every subexpression) of an enumerated program set; metamorphic AST equality",
-   text="For every program of the shared tree set: every token boundary x every whitespace string of the tier, all boundaries at once, leading/trailing; every subexpression wrapped in 1..3 redundant pairs and every pair of subexpressions wrapped once. The AST must equal that of the original text.",
+   text="For every program of the shared tree set: every token boundary x every whitespace string of the tier (added, replaced, and removed where the tokens stay apart), all boundaries at once, leading/trailing; a grid of up to 100 earlier postfix statements x up to 100 redundant pairs / 300-character whitespace runs; every subexpression wrapped in 1..3 redundant pairs and every pair of subexpressions wrapped once. The AST must equal that of the original text.",
    note="Programs of <= 3 operator nodes; whitespace strings of length <= 2; paren multiplicity <= 3.", design="§4 C11"),
  "C12": dict(technique="bounded exhaustive enumeration of parser-produced ASTs (incl. forced shapes via full parenthesisation, mirrored children) and of operator re-registration histories; round-trip oracle",
    text="For every AST the parser returns on the program set (minimal, full and mirrored-full renderings) and on every accepted token sequence of <= 5 (6) tokens: parse(expr(t)) == t and expr() is idempotent. Plus every history of <= 3 re-registrations of an infix operator (fresh process each) with the round trip after each step.",
@@ -33,7 +33,7 @@ CHECKS = {
    text="~1000 edge mantissas x every scale 0..28 x value-preserving spellings must evaluate to exactly (mantissa, scale); malformed literals must be rejected; all ordered pairs of 175 edge operands and the complete square of small operands under + - * % < <= > >= == != and compound forms must equal the exact result whenever it fits 96 bits / 28 places.",
    note="A finite lattice of the 2^96 x 29 domain; carry chains inside rust_decimal beyond the lattice are trusted; results that do not fit are skipped (C04).", design="§4 C09"),
  "C17": dict(technique="exhaustive enumeration (all values of 8/16-bit types) and boundary-lattice enumeration of conversions, oracles independent of rust_decimal arithmetic",
-   text="From<i8|u8|i16|u16> on all values, wider integer types on the +-2^k, +-10^k, MIN/MAX, 2^96 lattice plus contiguous runs at type boundaries, From<f32|f64> on mantissa patterns x every exponent, integer() on a (mantissa, scale, sign) lattice against integer division, every accessor x every variant, From round trips for strings, booleans, decimals, lists.",
+   text="From<i8|u8|i16|u16> on all values, wider integer types on the +-2^k, +-10^k, MIN/MAX, 2^96 lattice plus contiguous runs at type boundaries (release and dev build), From<f32|f64> on mantissa patterns x every exponent and on whole numbers (which must convert exactly), integer() on a (mantissa, scale, sign) lattice against integer division, every accessor x every variant, From round trips for strings, booleans, decimals, lists.",
    note="Out-of-range i128/u128/f32/f64 and non-finite floats becoming 0 are recorded known findings (infallible From); float conversion judged to DBL_DIG/FLT_DIG digits.", design="§4 C17"),
  "C06": dict(technique="explicit-state breadth-first search over (context, statement) transitions with canonical-state de-duplication; every transition executed on the real engine and on a reference evaluator (model)",
    text="States are contexts, transitions are 46 statements (plain / all 10 compound assignments, failing statements, reads, nested and chained assignments, non-name targets, assignments inside call arguments and list literals, a global function name used as a variable) from 6 initial contexts, breadth-first to depth 4 (5). Each transition is run statement-by-statement on one Context, as one whole program, and (compound forms) against its expansion; results and complete context contents must equal the reference.",
@@ -42,22 +42,22 @@ CHECKS = {
    text="Every tree of <= 3 (4) inner nodes over 16 evaluating node kinds with logging leaves (context functions by call and by bare name) and logging registered operators / functions, un-faulted and with an Err injected at every handler invocation index: call log (names and argument values), result and final bindings must equal the reference (left to right, once each, selected branch only, nothing after the failing invocation).",
    note="<= 3 (4) inner nodes; every parent/child kind pair at every child position appears from 2 nodes on.", design="§4 C07"),
  "C15": dict(technique="exhaustive fault enumeration (program x handler invocation index x {Err, panic}) on the real engine with post-fault invariants, reference evaluator (model) for the truncated log",
-   text="Every program of the effects set x every invocation index k x {return Err, panic}: log equals the reference log truncated after k, Err gives Err, a panic reaches the caller as an unwind, and afterwards a 12-expression battery over all four registries (this thread and a new thread) and the same Context (get / get_variable / set_variable / exec, contents equal to the reference) behave as if the evaluation had just stopped.",
+   text="Every program of the effects set x every invocation index k x {return Err, return the Err of a nested evaluation, panic}: log equals the reference log truncated after k, Err gives Err, a panic reaches the caller as an unwind, and afterwards a 12-expression battery over all four registries (this thread and a new thread) and the same Context (get / get_variable / set_variable / exec, contents equal to the reference) behave as if the evaluation had just stopped.",
    note="<= 3 (4) inner nodes; handler kinds: context function by call and bare name, global function, registered prefix / infix / setter / postfix operators.", design="§4 C15"),
  "C18": dict(technique="exhaustive enumeration of all 2^14 descriptor-registration subsets x enumerated ASTs, compared with a reference rendering (model)",
-   text="All 16384 subsets of 14 (kind, name) registrations whose names are deliberately shared across kinds, reached through the clear hook + public setters (and the empty / singleton / full configurations also in fresh processes without the hook), crossed with every AST of <= 2 (3) operator nodes over 16 node kinds: describe() must equal the reference rendering (registered marker or documented default).",
+   text="All 16384 subsets of 14 (kind, name) registrations whose names are deliberately shared across kinds, reached through the clear hook + public setters (and the empty / singleton / full configurations also in fresh processes without the hook), crossed with every AST of <= 2 (3) operator nodes over 16 node kinds: describe() must equal the reference rendering (registered marker or documented default); each (kind, name) re-registered over a decoy; and describe() racing set_*_descriptor under the C13 scheduler (all schedules with <= 2 (3) preemptions).",
    note="Names limited to two per named kind; ASTs of <= 2 (3) operator nodes.", design="§4 C18"),
  "C08": dict(technique="exhaustive enumeration of registration histories (one fresh process per history, probe batteries at every placement) and of operator tables, compared with a registry model + reference lexer/parser/evaluator instantiated with the same table",
    text="Every history of <= 2 (3) operations over 16 registration operations with every placement of probe batteries (before first use, between, after), every history of 3 (4) operations with 4 placements, each in a fresh process; a battery = 32 expressions x up to 4 contexts (AST, rendering round trip, value/tag). Plus ~450 operator tables with one or two new infix operators at adjacent / extreme precedences, every `a X b Y c [Z d]` over new operators and one built-in per level.",
    note="History length <= 3 (4); two new operators per table; same-precedence/opposite-associativity pairs excluded (undefined); registered symbolic operators prefix-closed.", design="§4 C08"),
  "C14": dict(technique="exhaustive enumeration of the handler-kind x re-entrant-action product on the real engine, one fresh process per case; owner-tracking hook mutex turns a self re-lock into a deterministic verdict",
-   text="8 handler kinds x 13 re-entrant actions (89 applicable cases): parse, execute, execute a global function, the same handler nested to depth 2 and 3, each register_* function, re-registering itself, and for context functions locking / writing / evaluating on the evaluating context. The outer evaluation must return its normal value; a re-lock by the owning thread is reported by the hook mutex, a hang by the wall cap.",
+   text="10 handler kinds x 13 re-entrant actions (130 cases): parse, execute, execute a global function, the same handler nested to depth 2 and 3, each register_* function, re-registering itself, and for context functions locking / writing / evaluating on the evaluating context. The outer evaluation must return its normal value; a re-lock by the owning thread is reported by the hook mutex, a hang by the wall cap.",
    note="Nesting depth 3; locking the evaluating context is promised for context functions only.", design="§4 C14"),
  "C16": dict(technique="exhaustive enumeration of call histories without state merging (in-process and in fresh processes), every call compared with a stateless reference evaluator (model) and registry snapshots",
-   text="All histories of <= 3 (4) operations over {parse, execute on fresh context, exec on long-lived context A / B} x 18 programs (no de-duplication: hidden state must not be merged away), every single operation and ordered pair as the first calls of a fresh process, and ~4000 histories with one register_infix_op at every position (fresh process each): every call's result and context equal the same call made alone, A and B never interact, the registry snapshot never changes under parse/exec.",
+   text="All histories of <= 3 (4) operations over {parse, execute on fresh context, exec on long-lived context A / B} x 18 programs (no de-duplication: hidden state must not be merged away), every single operation and ordered pair as the first calls of a fresh process, ~4000 histories with one register_infix_op at every position (fresh process each), and 484 long histories (100 repetitions of one program, parse errors included, then every operation on another): every call's result and context equal the same call made alone, A and B never interact, the registry snapshot never changes under parse/exec.",
    note="Depth 3 (4); leakage needing more calls (a cache with larger capacity) is out of bound; concurrent isolation is covered by the C13 explorer's workloads.", design="§4 C16"),
  "C13": dict(technique="stateless preemption-bounded exploration (CHESS-style iterative context bounding) of real threads under a controlled baton scheduler, one fresh process per schedule; brute-force linearizability against all sequential orders",
-   text="11 workloads of 2-3 real threads (first use x2 / x3, first use vs override of a built-in, vs new infix operator, vs registrations as first calls, concurrent re-registration, prefix/postfix registration, isolated contexts) run under a scheduler that owns every choice: scheduling points at every Mutex::lock, OnceCell::get_or_init, init stage, thread start/end; all schedules with <= 3 (4) preemptions for 2 threads and <= 1 (2) for 3 threads; per-thread results must equal some sequential order of the calls (orders executed in fresh processes), no panic, no deadlock; replay divergence and uncontrolled blocking are machinery errors.",
+   text="15 workloads of 2-3 real threads plus post-join calls by the main thread (first use x2 / x3, first use vs override of a built-in, vs new infix operator, vs registrations as first calls, concurrent re-registration, prefix/postfix registration, isolated contexts) run under a scheduler that owns every choice: scheduling points at every Mutex::lock, OnceCell::get_or_init, init stage, thread start/end; all schedules with <= 3 (4) preemptions for 2 threads and <= 1 (2) for 3 threads; per-thread results must equal some sequential order of the calls (orders executed in fresh processes), no panic, no deadlock; replay divergence and uncontrolled blocking are machinery errors.",
    note="Sound because the crate is unsafe-free and shares state only through Mutex/OnceCell (driver greps for anything else); sequential consistency assumed; std Mutex and once_cell trusted; <= 3 threads, <= 2 calls each. The non-atomicity of one evaluation against two registrations is a recorded known finding (W5).", design="§4 C13"),
 }
 
